@@ -153,6 +153,14 @@ class Driver:
         st.tpc_vote(t)
         self.mark('vote_ret', self.ncommit + 1)
         if abort == 'post':
+            # somebody reads the newest committed records while the voted transaction lies behind them in the file (another
+            # thread would; the API allows it from this one): whatever a reader's file buffer picked up of it must be gone
+            # when the transaction is
+            for o in self.spec.oids()[-3:]:
+                try:
+                    st.load(o)
+                except Exception:
+                    pass
             st.tpc_abort(t)
             self.mark('abort_ret', self.ncommit + 1)
             return 'abort-post(%d)' % n
